@@ -76,13 +76,19 @@ def fitPoints (c : Curve) (points : List Vec) (nodes : Option (List Rat)) : Exce
   let M ← exceptOfOption .other (lstsq? (transpose B))
   Curve.mk? c.kv (some (matPts M points)) c.W
 
-/-- `Curve.fit_curve(other, nodes)` for polynomial curves: new curve and reported error -/
+/-- `Curve.fit_curve(other, nodes)` for a polynomial source: new curve and reported error.  A receiver with weights keeps
+them (`func2func` with unit source weights and the receiver's weights; only the control points are set); a source
+with weights is not modelled. -/
 def fitCurve (c other : Curve) (nodes : Option (List Rat)) : Except Err (Curve × Rat) := do
   match other.P, c.W, other.W with
   | some pts, none, none =>
     let (q, err) ← fitSpline other.kv pts c.kv nodes
     let c' ← Curve.mk? c.kv (some q) none
     return (c', err)
+  | some pts, some wa, none =>
+    let (T, E) ← func2func other.kv (some (List.replicate other.kv.npts 1)) c.kv (some wa) nodes
+    let c' ← Curve.mk? c.kv (some (matPts T pts)) (some wa)
+    return (c', quadFormMax E pts)
   | _, _, _ => throw .other
 
 end Curve
